@@ -1,7 +1,614 @@
-/- C17: proofs about the mirror of string.c kmp_* (Lib/Kmp.lean). -/
+/- C17: proofs about the mirror of string.c kmp_* (Lib/Kmp.lean): the failure table holds the longest proper border of
+   every prefix, and `kmp_next` started at `(start, 0)` returns exactly the naive first match. -/
 import JanetModel.Lib.Kmp
 import JanetModel.Lib.SpecLaws
 namespace JanetModel.Lib.Kmp
 open JanetModel.Lib
+
+/-! ## borders of prefixes of the pattern (as a function `P : Nat → Nat`) -/
+
+/-- the prefix of length `k` of `P` equals the suffix of length `k` of `P[0..m)` -/
+def Border (P : Nat → Nat) (k m : Nat) : Prop := k ≤ m ∧ ∀ t, t < k → P t = P (m - k + t)
+
+/-- `b` is the length of the longest proper border of `P[0..m)` -/
+def IsLPB (P : Nat → Nat) (m b : Nat) : Prop :=
+  b < m ∧ Border P b m ∧ ∀ k, b < k → k < m → ¬ Border P k m
+
+theorem border_zero (P : Nat → Nat) (m : Nat) : Border P 0 m := ⟨Nat.zero_le _, fun t h => by omega⟩
+
+/-- a border of a border is a border -/
+theorem border_trans {P : Nat → Nat} {a b m : Nat} (h1 : Border P a b) (h2 : Border P b m) : Border P a m := by
+  refine ⟨Nat.le_trans h1.1 h2.1, fun t ht => ?_⟩
+  have e1 := h1.2 t ht
+  have e2 := h2.2 (b - a + t) (by have := h1.1; omega)
+  rw [e1, e2]
+  congr 1
+  have := h1.1; have := h2.1
+  omega
+
+/-- two borders of the same prefix: the shorter is a border of the longer -/
+theorem border_of_borders {P : Nat → Nat} {a b m : Nat} (hab : a ≤ b) (h1 : Border P a m) (h2 : Border P b m) :
+    Border P a b := by
+  refine ⟨hab, fun t ht => ?_⟩
+  have e1 := h1.2 t ht
+  have e2 := h2.2 (b - a + t) (by omega)
+  rw [e1, e2]
+  congr 1
+  have := h2.1
+  omega
+
+/-- extending a border by one matching character -/
+theorem border_succ {P : Nat → Nat} {j i : Nat} (h : Border P j i) (hc : P j = P i) : Border P (j + 1) (i + 1) := by
+  refine ⟨by have := h.1; omega, fun t ht => ?_⟩
+  by_cases htj : t < j
+  · have := h.2 t htj
+    rw [this]; congr 1; have := h.1; omega
+  · have : t = j := by omega
+    subst this
+    rw [hc]; congr 1; have := h.1; omega
+
+/-- shrinking a border of `P[0..i+1)` -/
+theorem border_pred {P : Nat → Nat} {k i : Nat} (h : Border P (k + 1) (i + 1)) : Border P k i ∧ P k = P i := by
+  refine ⟨⟨by have := h.1; omega, fun t ht => ?_⟩, ?_⟩
+  · have := h.2 t (by omega)
+    rw [this]; congr 1; have := h.1; omega
+  · have := h.2 k (by omega)
+    rw [this]; congr 1; have := h.1; omega
+
+/-! ## the failure table -/
+
+theorem getD_setIfInBounds (a : Array Nat) (i v k : Nat) :
+    (a.setIfInBounds i v).getD k 0 = if k = i ∧ i < a.size then v else a.getD k 0 := by
+  simp only [Array.getD_eq_getD_getElem?, Array.getElem?_setIfInBounds]
+  by_cases hki : k = i
+  · subst hki
+    by_cases hlt : k < a.size
+    · simp [hlt]
+    · simp [hlt]
+  · have : ¬ i = k := fun h => hki h.symm
+    simp [hki, this]
+
+/-- invariant of the inner `while (j && pat[j] != pat[i]) j = lookup[j-1]` loop -/
+def InnerInv (P : Nat → Nat) (i c j : Nat) : Prop :=
+  j < i ∧ Border P j i ∧ ∀ k, j < k → k < i → Border P k i → P k ≠ c
+
+theorem initInner_spec (pat lookup : Array Nat) (i c : Nat)
+    (htab : ∀ m, 1 ≤ m → m < i → IsLPB (fun k => pat.getD k 0) m (lookup.getD (m - 1) 0))
+    (fuel j : Nat) (hf : j < fuel) (hinv : InnerInv (fun k => pat.getD k 0) i c j) :
+    let j1 := initInner pat lookup c fuel j
+    InnerInv (fun k => pat.getD k 0) i c j1 ∧ (j1 = 0 ∨ pat.getD j1 0 = c) := by
+  induction fuel generalizing j with
+  | zero => omega
+  | succ n ih =>
+    simp only [initInner]
+    by_cases hcond : j ≠ 0 ∧ pat.getD j 0 ≠ c
+    · rw [if_pos hcond]
+      obtain ⟨hj0, hne⟩ := hcond
+      obtain ⟨hji, hb, hmax⟩ := hinv
+      have hl := htab j (by omega) hji
+      obtain ⟨hlt, hlb, hlmax⟩ := hl
+      apply ih
+      · omega
+      · refine ⟨by omega, border_trans hlb hb, fun k hk1 hk2 hkb => ?_⟩
+        by_cases hkj : j < k
+        · exact hmax k hkj hk2 hkb
+        · by_cases hkeq : k = j
+          · subst hkeq; exact hne
+          · exfalso
+            exact hlmax k hk1 (by omega) (border_of_borders (by omega) hkb hb)
+    · rw [if_neg hcond]
+      refine ⟨hinv, ?_⟩
+      by_cases h0 : j = 0
+      · exact Or.inl h0
+      · right
+        by_cases hc : pat.getD j 0 = c
+        · exact hc
+        · exact absurd ⟨h0, hc⟩ hcond
+
+/-- invariant of the outer `for (i = 1, j = 0; i < patlen; i++)` loop -/
+def TableInv (pat lookup : Array Nat) (i j : Nat) : Prop :=
+  lookup.size = pat.size ∧ 1 ≤ i ∧
+  (∀ m, 1 ≤ m → m ≤ i → IsLPB (fun k => pat.getD k 0) m (lookup.getD (m - 1) 0)) ∧
+  j = lookup.getD (i - 1) 0
+
+theorem initLoop_spec (pat : Array Nat) (fuel i j : Nat) (lookup : Array Nat)
+    (hf : pat.size ≤ i + fuel) (hi : i ≤ pat.size) (hinv : TableInv pat lookup i j) :
+    let T := initLoop pat fuel i j lookup
+    T.size = pat.size ∧ ∀ m, 1 ≤ m → m ≤ pat.size → IsLPB (fun k => pat.getD k 0) m (T.getD (m - 1) 0) := by
+  induction fuel generalizing i j lookup with
+  | zero =>
+    simp only [initLoop]
+    obtain ⟨hs, _, htab, _⟩ := hinv
+    exact ⟨hs, fun m h1 h2 => htab m h1 (by omega)⟩
+  | succ n ih =>
+    simp only [initLoop]
+    by_cases hlt : i < pat.size
+    · rw [if_pos hlt]
+      obtain ⟨hs, h1i, htab, hj⟩ := hinv
+      have hlpb := htab i h1i (Nat.le_refl _)
+      rw [← hj] at hlpb
+      have hinner := initInner_spec pat lookup i (pat.getD i 0) (fun m h1 h2 => htab m h1 (by omega)) (j + 1) j (by omega)
+        ⟨hlpb.1, hlpb.2.1, fun k hk1 hk2 hkb => absurd hkb (hlpb.2.2 k hk1 hk2)⟩
+      simp only at hinner
+      generalize initInner pat lookup (pat.getD i 0) (j + 1) j = j1 at hinner
+      obtain ⟨⟨hj1i, hj1b, hj1max⟩, hexit⟩ := hinner
+      apply ih
+      · omega
+      · omega
+      · refine ⟨by simp [hs], by omega, fun m hm1 hm2 => ?_, ?_⟩
+        · rw [getD_setIfInBounds]
+          by_cases hmi : m ≤ i
+          · have : ¬ (m - 1 = i ∧ i < lookup.size) := by omega
+            rw [if_neg this]
+            exact htab m hm1 hmi
+          · have hm : m = i + 1 := by omega
+            subst hm
+            have : (i + 1 - 1 = i ∧ i < lookup.size) := ⟨by omega, by omega⟩
+            rw [if_pos this]
+            by_cases hc : pat.getD j1 0 = pat.getD i 0
+            · rw [if_pos hc]
+              refine ⟨by omega, border_succ hj1b hc, fun k hk1 hk2 hkb => ?_⟩
+              obtain ⟨k', rfl⟩ : ∃ k', k = k' + 1 := ⟨k - 1, by omega⟩
+              obtain ⟨hb', hc'⟩ := border_pred hkb
+              exact hj1max k' (by omega) (by omega) hb' hc'
+            · rw [if_neg hc]
+              have hj10 : j1 = 0 := by
+                rcases hexit with h | h
+                · exact h
+                · exact absurd h hc
+              subst hj10
+              refine ⟨by omega, border_zero _ _, fun k hk1 hk2 hkb => ?_⟩
+              obtain ⟨k', rfl⟩ : ∃ k', k = k' + 1 := ⟨k - 1, by omega⟩
+              obtain ⟨hb', hc'⟩ := border_pred hkb
+              by_cases hk0 : k' = 0
+              · subst hk0; exact hc hc'
+              · exact hj1max k' (by omega) (by omega) hb' hc'
+        · rw [getD_setIfInBounds]
+          have : (i + 1 - 1 = i ∧ i < lookup.size) := ⟨by omega, by omega⟩
+          rw [if_pos this]
+    · rw [if_neg hlt]
+      obtain ⟨hs, _, htab, _⟩ := hinv
+      exact ⟨hs, fun m h1 h2 => htab m h1 (by omega)⟩
+
+/-- `kmp_init`: entry `m-1` of the table is the longest proper border of the prefix of length `m`. -/
+theorem lookupTable_spec (pat : Array Nat) (hne : 0 < pat.size) :
+    (lookupTable pat).size = pat.size ∧
+    ∀ m, 1 ≤ m → m ≤ pat.size → IsLPB (fun k => pat.getD k 0) m ((lookupTable pat).getD (m - 1) 0) := by
+  unfold lookupTable
+  apply initLoop_spec pat pat.size 1 0 _ (by omega) (by omega)
+  refine ⟨by simp, Nat.le_refl _, fun m h1 h2 => ?_, ?_⟩
+  · have : m = 1 := by omega
+    subst this
+    have h0 : (Array.replicate pat.size 0).getD 0 0 = 0 := by
+      simp [Array.getD_eq_getD_getElem?, Array.getElem?_replicate, hne]
+    rw [show (1 - 1 : Nat) = 0 from rfl, h0]
+    exact ⟨by omega, border_zero _ _, fun k h1 h2 => by omega⟩
+  · simp [Array.getD_eq_getD_getElem?, Array.getElem?_replicate, hne]
+
+/-! ## the search loop -/
+
+/-- the pattern occurs in the text at offset `r` (array / index form) -/
+def MatchA (pat text : Array Nat) (r : Nat) : Prop :=
+  r + pat.size ≤ text.size ∧ ∀ t, t < pat.size → pat.getD t 0 = text.getD (r + t) 0
+
+/-- loop invariant of `kmp_next` for a search that began at `(start, 0)` -/
+structure NInv (pat text : Array Nat) (start i j : Nat) : Prop where
+  jlt : j < pat.size
+  sj : start + j ≤ i
+  ile : i ≤ text.size
+  pm : ∀ t, t < j → pat.getD t 0 = text.getD (i - j + t) 0
+  dead : ∀ k, j < k → k < pat.size → start + k ≤ i → (∀ t, t < k → pat.getD t 0 = text.getD (i - k + t) 0) →
+          pat.getD k 0 ≠ text.getD i 0
+  none_before : ∀ r, start ≤ r → r + pat.size ≤ i → ¬ (∀ t, t < pat.size → pat.getD t 0 = text.getD (r + t) 0)
+
+theorem next_spec (pat text T : Array Nat) (start : Nat)
+    (hT : ∀ m, 1 ≤ m → m ≤ pat.size → IsLPB (fun k => pat.getD k 0) m (T.getD (m - 1) 0))
+    (fuel : Nat) (s : State) (hinv : NInv pat text start s.i s.j) (hf : 2 * (text.size - s.i) + s.j < fuel) :
+    match next text pat T fuel s with
+    | (some r, s') => start ≤ r ∧ MatchA pat text r ∧ (∀ r', start ≤ r' → r' < r → ¬ MatchA pat text r') ∧
+                       s' = { i := r + pat.size, j := T.getD (pat.size - 1) 0 }
+    | (none, _) => ∀ r', start ≤ r' → ¬ MatchA pat text r' := by
+  induction fuel generalizing s with
+  | zero => omega
+  | succ n ih =>
+    obtain ⟨i, j⟩ := s
+    simp only at hinv hf
+    unfold next
+    simp only
+    by_cases hlt : i < text.size
+    · rw [if_pos hlt]
+      by_cases hc : text.getD i 0 = pat.getD j 0
+      · rw [if_pos hc]
+        by_cases hlast : j = pat.size - 1
+        · rw [if_pos hlast]
+          simp only
+          have hjn := hinv.jlt
+          refine ⟨by have := hinv.sj; omega, ⟨by have := hinv.sj; omega, fun t ht => ?_⟩, fun r' h1 h2 hm => ?_, ?_⟩
+          rotate_left 2
+          · have := hinv.sj
+            subst hlast
+            congr 1
+            omega
+          · by_cases htj : t < j
+            · have := hinv.pm t htj
+              rw [this]
+            · have : t = j := by omega
+              subst this
+              rw [hc.symm]; congr 1; have := hinv.sj; omega
+          · exact hinv.none_before r' h1 (by have := hinv.sj; omega) hm.2
+        · rw [if_neg hlast]
+          have hjn := hinv.jlt
+          apply ih
+          · simp only
+            refine ⟨by omega, by have := hinv.sj; omega, by omega, fun t ht => ?_, fun k hk1 hk2 hk3 hpm => ?_, fun r h1 h2 hm => ?_⟩
+            · by_cases htj : t < j
+              · have := hinv.pm t htj
+                rw [this]; congr 1; have := hinv.sj; omega
+              · have : t = j := by omega
+                subst this
+                rw [hc.symm]; congr 1; have := hinv.sj; omega
+            · -- a longer prefix match ending at i+1 restricts to one ending at i whose next char is text[i]
+              intro _
+              obtain ⟨k', rfl⟩ : ∃ k', k = k' + 1 := ⟨k - 1, by omega⟩
+              have h1 : ∀ t, t < k' → pat.getD t 0 = text.getD (i - k' + t) 0 := fun t ht => by
+                have := hpm t (by omega)
+                rw [this]; congr 1; omega
+              have h2 : pat.getD k' 0 = text.getD i 0 := by
+                have := hpm k' (by omega)
+                rw [this]; congr 1; omega
+              exact hinv.dead k' (by omega) (by omega) (by omega) h1 h2
+            · by_cases hr : r + pat.size ≤ i
+              · exact hinv.none_before r h1 hr hm
+              · have hr' : r + pat.size = i + 1 := by omega
+                have hk : j < pat.size - 1 := by omega
+                have h1' : ∀ t, t < pat.size - 1 → pat.getD t 0 = text.getD (i - (pat.size - 1) + t) 0 := fun t ht => by
+                  have := hm t (by omega)
+                  rw [this]; congr 1; omega
+                have h2' : pat.getD (pat.size - 1) 0 = text.getD i 0 := by
+                  have := hm (pat.size - 1) (by omega)
+                  rw [this]; congr 1; omega
+                exact hinv.dead (pat.size - 1) hk (by omega) (by omega) h1' h2'
+          · simp only; omega
+      · rw [if_neg hc]
+        by_cases hj : j > 0
+        · rw [if_pos hj]
+          have hjn := hinv.jlt
+          obtain ⟨hl1, hl2, hl3⟩ := hT j (by omega) (by omega)
+          apply ih
+          · simp only
+            refine ⟨by omega, by have := hinv.sj; omega, hinv.ile, fun t ht => ?_, fun k hk1 hk2 hk3 hpm => ?_, hinv.none_before⟩
+            · have e1 := hl2.2 t ht
+              simp only at e1
+              rw [e1, hinv.pm _ (by omega)]
+              congr 1; have := hinv.sj; omega
+            · by_cases hkj : j < k
+              · exact hinv.dead k hkj hk2 hk3 hpm
+              · by_cases hkeq : k = j
+                · subst hkeq; exact fun h => hc h.symm
+                · exfalso
+                  -- k is a border of pat[0..j) longer than the table entry
+                  apply hl3 k hk1 (by omega)
+                  refine ⟨by omega, fun t ht => ?_⟩
+                  simp only
+                  rw [hpm t ht, hinv.pm (j - k + t) (by omega)]
+                  congr 1; have := hinv.sj; omega
+          · simp only; omega
+        · rw [if_neg hj]
+          have hj0 : j = 0 := by omega
+          subst hj0
+          apply ih
+          · simp only
+            refine ⟨hinv.jlt, by have := hinv.sj; omega, by omega, fun t ht => by omega, fun k hk1 hk2 hk3 hpm => ?_, fun r h1 h2 hm => ?_⟩
+            · intro _
+              obtain ⟨k', rfl⟩ : ∃ k', k = k' + 1 := ⟨k - 1, by omega⟩
+              have h2 : pat.getD k' 0 = text.getD i 0 := by
+                have := hpm k' (by omega)
+                rw [this]; congr 1; omega
+              by_cases hk0 : k' = 0
+              · subst hk0; exact hc h2.symm
+              · have h1 : ∀ t, t < k' → pat.getD t 0 = text.getD (i - k' + t) 0 := fun t ht => by
+                  have := hpm t (by omega)
+                  rw [this]; congr 1; omega
+                exact hinv.dead k' (by omega) (by omega) (by omega) h1 h2
+            · by_cases hr : r + pat.size ≤ i
+              · exact hinv.none_before r h1 hr hm
+              · have hr' : r + pat.size = i + 1 := by omega
+                have h2' : pat.getD (pat.size - 1) 0 = text.getD i 0 := by
+                  have := hm (pat.size - 1) (by have := hinv.jlt; omega)
+                  rw [this]; congr 1; have := hinv.jlt; omega
+                by_cases hn1 : pat.size - 1 = 0
+                · rw [hn1] at h2'; exact hc h2'.symm
+                · have h1' : ∀ t, t < pat.size - 1 → pat.getD t 0 = text.getD (i - (pat.size - 1) + t) 0 := fun t ht => by
+                    have := hm t (by omega)
+                    rw [this]; congr 1; omega
+                  exact hinv.dead (pat.size - 1) (by omega) (by omega) (by omega) h1' h2'
+          · simp only; omega
+    · rw [if_neg hlt]
+      simp only
+      intro r' h1 hm
+      exact hinv.none_before r' h1 (by have := hm.1; have := hinv.ile; omega) hm.2
+
+/-! ## connection with the naive definition of Lib/Spec.lean -/
+
+theorem toArray_getD (l : List Nat) (k : Nat) : l.toArray.getD k 0 = l.getD k 0 := by
+  simp [Array.getD_eq_getD_getElem?, List.getD_eq_getElem?_getD]
+
+theorem matchAt_iff_MatchA (pat text : Bytes) (r : Nat) :
+    matchAt pat text r = true ↔ MatchA pat.toArray text.toArray r := by
+  rw [matchAt_iff]
+  unfold MatchA
+  simp only [List.size_toArray, toArray_getD]
+  constructor
+  · rintro ⟨h1, h2⟩
+    refine ⟨h1, fun t ht => ?_⟩
+    have : pat[t]? = ((text.drop r).take pat.length)[t]? := by rw [h2]
+    rw [List.getElem?_take_of_lt ht, List.getElem?_drop] at this
+    simp only [List.getD_eq_getElem?_getD, this]
+  · rintro ⟨h1, h2⟩
+    refine ⟨h1, ?_⟩
+    apply List.ext_getElem?
+    intro t
+    by_cases ht : t < pat.length
+    · rw [List.getElem?_take_of_lt ht, List.getElem?_drop]
+      have := h2 t ht
+      simp only [List.getD_eq_getElem?_getD] at this
+      have h3 : r + t < text.length := by omega
+      rw [List.getElem?_eq_getElem ht, List.getElem?_eq_getElem h3] at this ⊢
+      simp only [Option.getD_some] at this
+      rw [this]
+    · have h3 : pat.length ≤ t := by omega
+      rw [List.getElem?_eq_none h3]
+      rw [List.getElem?_eq_none]
+      simp only [List.length_take, List.length_drop]
+      omega
+
+/-- one `kmp_next` call from a state satisfying the invariant: its result is the naive first match at an index `≥ start`,
+    and after a match the machine is in state `(r + patlen, lookup[patlen-1])` -/
+theorem kmpNext_spec (pat text : Bytes) (hp : pat ≠ []) (start : Nat) (s : State)
+    (hinv : NInv pat.toArray text.toArray start s.i s.j) :
+    (kmpNext text.toArray pat.toArray (lookupTable pat.toArray) s).1 = findFrom pat text start ∧
+    ∀ r, (kmpNext text.toArray pat.toArray (lookupTable pat.toArray) s).1 = some r →
+      (kmpNext text.toArray pat.toArray (lookupTable pat.toArray) s).2
+        = { i := r + pat.toArray.size, j := (lookupTable pat.toArray).getD (pat.toArray.size - 1) 0 } := by
+  have hn : 0 < pat.toArray.size := by
+    cases pat with
+    | nil => exact absurd rfl hp
+    | cons x xs => simp
+  obtain ⟨_, hT⟩ := lookupTable_spec pat.toArray hn
+  have hspec := next_spec pat.toArray text.toArray (lookupTable pat.toArray) start hT
+    (nextFuel text.toArray s) s hinv (by simp only [nextFuel]; omega)
+  unfold kmpNext
+  generalize next text.toArray pat.toArray (lookupTable pat.toArray) (nextFuel text.toArray s) s = res at hspec
+  obtain ⟨res, s'⟩ := res
+  cases res with
+  | some r =>
+    simp only at hspec
+    obtain ⟨h1, h2, h3, h4⟩ := hspec
+    refine ⟨?_, fun r' hr' => ?_⟩
+    · simp only
+      cases hf : findFrom pat text start with
+      | some r0 =>
+        obtain ⟨g1, g2, g3⟩ := findFrom_some hf
+        congr 1
+        by_cases hlt : r < r0
+        · have := g3 r h1 hlt
+          rw [(matchAt_iff_MatchA pat text r).2 h2] at this
+          exact absurd this (by simp)
+        · by_cases hgt : r0 < r
+          · exact absurd ((matchAt_iff_MatchA pat text r0).1 g2) (h3 r0 g1 hgt)
+          · omega
+      | none =>
+        have := findFrom_none hf r h1
+        rw [(matchAt_iff_MatchA pat text r).2 h2] at this
+        exact absurd this (by simp)
+    · simp only [Option.some.injEq] at hr'
+      subst hr'
+      exact h4
+  | none =>
+    simp only at hspec
+    refine ⟨?_, fun r' hr' => by simp at hr'⟩
+    simp only
+    cases hf : findFrom pat text start with
+    | some r0 =>
+      obtain ⟨g1, g2, _⟩ := findFrom_some hf
+      exact absurd ((matchAt_iff_MatchA pat text r0).1 g2) (hspec r0 g1)
+    | none => rfl
+
+theorem ninv_init (pat text : Bytes) (hp : pat ≠ []) (start : Nat) (hs : start ≤ text.length) :
+    NInv pat.toArray text.toArray start start 0 := by
+  have hn : 0 < pat.toArray.size := by
+    cases pat with
+    | nil => exact absurd rfl hp
+    | cons x xs => simp
+  exact ⟨hn, by omega, by simpa using hs, fun t ht => by omega, fun k h1 h2 h3 => by omega, fun r h1 h2 => by omega⟩
+
+/-- beyond the end of the text `kmp_next` returns -1 at once and there is no naive match either -/
+theorem kmpNext_past_end (pat text : Bytes) (s : State) (hs : text.length ≤ s.i) :
+    (kmpNext text.toArray pat.toArray (lookupTable pat.toArray) s).1 = none := by
+  unfold kmpNext
+  have : nextFuel text.toArray s = (2 * (text.toArray.size + 1) + s.j + 1) + 1 := by simp [nextFuel]
+  rw [this]
+  unfold next
+  rw [if_neg (by simp; omega)]
+
+/-- ☆ `kmp_eq_naive` for `string/find`: the KMP state machine of string.c (failure table built by `kmp_init`, search by
+    `kmp_next` from `(start, 0)`) returns exactly the least occurrence at an index `≥ start`, or nothing when there is none. -/
+theorem find_eq_naive (pat text : Bytes) (start : Nat) (hp : pat ≠ []) :
+    Kmp.find pat text start = findFrom pat text start := by
+  unfold Kmp.find
+  simp only
+  by_cases hs : start ≤ text.length
+  · exact (kmpNext_spec pat text hp start { i := start, j := 0 } (ninv_init pat text hp start hs)).1
+  · rw [kmpNext_past_end pat text { i := start, j := 0 } (by simp only; omega)]
+    unfold findFrom
+    have : text.length + 1 - start = 0 := by omega
+    rw [this]; rfl
+
+theorem kmpNext_fresh (pat text : Bytes) (st : Nat) (hp : pat ≠ []) :
+    (kmpNext text.toArray pat.toArray (lookupTable pat.toArray) { i := st, j := 0 }).1 = findFrom pat text st := by
+  have := find_eq_naive pat text st hp
+  unfold Kmp.find at this
+  exact this
+
+/-- the `string/replace-all` loop (search restarted after each match with `kmp_seti`) computes the reference definition -/
+theorem replaceAllLoop_eq (pat subst text : Bytes) (hp : pat ≠ []) (fuel last st : Nat) :
+    replaceAllLoop text.toArray pat.toArray (lookupTable pat.toArray) text subst fuel last { i := st, j := 0 }
+      = replaceAllAux pat subst text fuel last st := by
+  induction fuel generalizing last st with
+  | zero => rfl
+  | succ n ih =>
+    unfold replaceAllLoop replaceAllAux
+    have h := kmpNext_fresh pat text st hp
+    cases hk : kmpNext text.toArray pat.toArray (lookupTable pat.toArray) { i := st, j := 0 } with
+    | mk res s' =>
+      rw [hk] at h
+      simp only at h
+      subst h
+      cases hf : findFrom pat text st with
+      | none => simp [hf]
+      | some r =>
+        simp only [hf, List.size_toArray]
+        rw [ih]
+
+theorem replaceAll_eq_naive (pat subst text : Bytes) (start : Nat) (hp : pat ≠ []) :
+    some (Kmp.replaceAll pat subst text start) = JanetModel.Lib.replaceAll pat subst text start := by
+  unfold Kmp.replaceAll JanetModel.Lib.replaceAll
+  rw [if_neg hp]
+  simp only
+  rw [replaceAllLoop_eq pat subst text hp]
+
+theorem splitLoop_eq (pat text : Bytes) (hp : pat ≠ []) (fuel last st : Nat) (limit : Int) :
+    splitLoop text.toArray pat.toArray (lookupTable pat.toArray) text fuel last { i := st, j := 0 } limit
+      = splitAux pat text fuel last st limit := by
+  induction fuel generalizing last st limit with
+  | zero => rfl
+  | succ n ih =>
+    unfold splitLoop splitAux
+    have h := kmpNext_fresh pat text st hp
+    cases hk : kmpNext text.toArray pat.toArray (lookupTable pat.toArray) { i := st, j := 0 } with
+    | mk res s' =>
+      rw [hk] at h
+      simp only at h
+      subst h
+      cases hf : findFrom pat text st with
+      | none => simp [hf]
+      | some r =>
+        simp only [hf, List.size_toArray]
+        by_cases hl : limit - 1 = 0
+        · rw [if_pos hl, if_pos hl]
+        · rw [if_neg hl, if_neg hl, ih]
+
+theorem split_eq_naive (pat text : Bytes) (start : Nat) (limit : Int) (hp : pat ≠ []) :
+    some (Kmp.split pat text start limit) = JanetModel.Lib.split pat text start limit := by
+  unfold Kmp.split JanetModel.Lib.split
+  rw [if_neg hp]
+  simp only
+  rw [splitLoop_eq pat text hp]
+
+/-! ## find-all (the search continues from `(r + patlen, lookup[patlen-1])` after a match) -/
+
+theorem findAllAux_unfold (pat text : Bytes) (i fuel : Nat) :
+    findAllAux pat text i fuel =
+      match findFromAux pat text i fuel with
+      | none => []
+      | some r => r :: findAllAux pat text (r + 1) (i + fuel - (r + 1)) := by
+  induction fuel generalizing i with
+  | zero => rfl
+  | succ n ih =>
+    rw [show findAllAux pat text i (n + 1) = (if matchAt pat text i then i :: findAllAux pat text (i + 1) n
+          else findAllAux pat text (i + 1) n) from rfl,
+        show findFromAux pat text i (n + 1) = (if matchAt pat text i then some i else findFromAux pat text (i + 1) n) from rfl]
+    by_cases hm : matchAt pat text i = true
+    · rw [if_pos hm, if_pos hm]
+      simp only
+      have : i + (n + 1) - (i + 1) = n := by omega
+      rw [this]
+    · rw [if_neg hm, if_neg hm, ih (i + 1)]
+      have : ∀ r, i + 1 + n - (r + 1) = i + (n + 1) - (r + 1) := fun r => by omega
+      simp only [this]
+
+theorem findAll_unfold (pat text : Bytes) (start : Nat) :
+    JanetModel.Lib.findAll pat text start =
+      match findFrom pat text start with
+      | none => []
+      | some r => r :: JanetModel.Lib.findAll pat text (r + 1) := by
+  unfold JanetModel.Lib.findAll findFrom
+  rw [findAllAux_unfold]
+  cases hf : findFromAux pat text start (text.length + 1 - start) with
+  | none => rfl
+  | some r =>
+    simp only
+    obtain ⟨h1, h2, _, _⟩ := findFromAux_some hf
+    have : start + (text.length + 1 - start) - (r + 1) = text.length + 1 - (r + 1) := by omega
+    rw [this]
+
+theorem ninv_after_match (pat text : Array Nat) (b r : Nat) (hn : 0 < pat.size)
+    (hb : IsLPB (fun k => pat.getD k 0) pat.size b) (hm : MatchA pat text r) :
+    NInv pat text (r + 1) (r + pat.size) b := by
+  obtain ⟨hb1, hb2, hb3⟩ := hb
+  refine ⟨hb1, by omega, hm.1, fun t ht => ?_, fun k hk1 hk2 hk3 hpm => ?_, fun r' h1 h2 => by omega⟩
+  · have e1 := hb2.2 t ht
+    simp only at e1
+    rw [e1, hm.2 _ (by omega)]
+    congr 1; omega
+  · exfalso
+    apply hb3 k hk1 hk2
+    refine ⟨by omega, fun t ht => ?_⟩
+    simp only
+    rw [hpm t ht, hm.2 (pat.size - k + t) (by omega)]
+    congr 1; omega
+
+theorem findAllLoop_eq (pat text : Bytes) (hp : pat ≠ []) (fuel start : Nat) (s : State)
+    (hinv : NInv pat.toArray text.toArray start s.i s.j) (hf : text.length + 1 - start ≤ fuel) :
+    findAllLoop text.toArray pat.toArray (lookupTable pat.toArray) fuel s = JanetModel.Lib.findAll pat text start := by
+  have hn : 0 < pat.toArray.size := by
+    cases pat with
+    | nil => exact absurd rfl hp
+    | cons x xs => simp
+  induction fuel generalizing start s with
+  | zero =>
+    have h1 := hinv.sj
+    have h2 := hinv.ile
+    simp only [List.size_toArray] at h2
+    omega
+  | succ n ih =>
+    unfold findAllLoop
+    obtain ⟨h1, h2⟩ := kmpNext_spec pat text hp start s hinv
+    rw [findAll_unfold]
+    cases hk : kmpNext text.toArray pat.toArray (lookupTable pat.toArray) s with
+    | mk res s' =>
+      rw [hk] at h1 h2
+      simp only at h1 h2
+      rw [← h1]
+      cases res with
+      | none => rfl
+      | some r =>
+        simp only
+        have hs' := h2 r rfl
+        subst hs'
+        obtain ⟨g1, g2, _⟩ := findFrom_some h1.symm
+        have hm := (matchAt_iff_MatchA pat text r).1 g2
+        obtain ⟨_, hT⟩ := lookupTable_spec pat.toArray hn
+        have hinv' := ninv_after_match pat.toArray text.toArray _ r hn (hT pat.toArray.size (by omega) (Nat.le_refl _)) hm
+        rw [ih (r + 1) _ hinv' (by omega)]
+
+/-- ☆ `kmp_eq_naive` for `string/find-all` (overlapping occurrences included) -/
+theorem findAll_eq_naive (pat text : Bytes) (start : Nat) (hp : pat ≠ []) :
+    Kmp.findAll pat text start = JanetModel.Lib.findAll pat text start := by
+  unfold Kmp.findAll
+  simp only
+  by_cases hs : start ≤ text.length
+  · exact findAllLoop_eq pat text hp (text.length + 1) start _ (ninv_init pat text hp start hs) (by omega)
+  · unfold findAllLoop
+    have h := kmpNext_past_end pat text { i := start, j := 0 } (by simp only; omega)
+    cases hk : kmpNext text.toArray pat.toArray (lookupTable pat.toArray) { i := start, j := 0 } with
+    | mk res s' =>
+      rw [hk] at h
+      simp only at h
+      subst h
+      simp only
+      unfold JanetModel.Lib.findAll
+      have : text.length + 1 - start = 0 := by omega
+      rw [this]; rfl
 
 end JanetModel.Lib.Kmp
